@@ -134,7 +134,23 @@ def run(ctx, ck) -> None:
     raises = [p for p in function_paths(init) if p.exit == 'raise' and exception_name(p.node) == 'ValueError']
     rfacts = [fs for fs, _e, _p in raise_paths(init, 'ValueError')]
     bad_method = any(('in', ('var', 'method'), ('attr', I, 'METHODS'), False) in fs for fs in rfacts)
-    ck.expect('Z1', bad_method, init, 'a method outside METHODS is refused', 'an unknown evaluation method is no longer refused at construction', instance='unknown method')
+    accepted_other = None
+    if not bad_method:
+        # the membership test is made against another class-level collection: its elements (keys, for a table) are what is accepted
+        for fs in rfacts:
+            for f in fs:
+                if f[0] == 'in' and f[1] == ('var', 'method') and f[3] is False and f[2][0] == 'attr' and f[2][1] in (I, ('var', cls.name)):
+                    node_, _k = table.class_attr(cls, f[2][2])
+                    elts = node_.keys if isinstance(node_, ast.Dict) else node_.elts if isinstance(node_, (ast.Tuple, ast.List, ast.Set)) else None
+                    if elts is not None and all(isinstance(e, ast.Constant) and isinstance(e.value, str) for e in elts):
+                        accepted_other = (f[2][2], sorted(e.value for e in elts))
+    if accepted_other is not None:
+        extra = sorted(set(accepted_other[1]) - set(methods))
+        ck.expect('Z1', not extra, init, f'a method outside METHODS is refused (the test is made against {accepted_other[0]}, which holds the same names)',
+                  f'the constructor accepts the methods of {accepted_other[0]} = {accepted_other[1]}: {extra} is accepted although it is not one of METHODS = {sorted(methods)} (the methods that are validated to compute T x)',
+                  instance='unknown method', semantic=True)
+    else:
+        ck.expect('Z1', bad_method, init, 'a method outside METHODS is refused', 'an unknown evaluation method is no longer refused at construction', instance='unknown method')
 
     # ------------------------------------------------------------------ Z2 validation
     starts = ('call', ('attr', ('var', 'method'), 'startswith'), (('const', "'overlap_'"),), ())
